@@ -1257,6 +1257,23 @@ def c17(ctx, rep):
             continue
         loops = [e.a for e in path.effects if e.kind == "loop"]
         writes_outside = [e for e in path.effects if e.kind == "call" and M.callee_name(e.a) == "write"]
+        wl = [e for e in path.effects if e.kind == "call" and e.a[1] == ("attr", outp, "writelines") and len(e.a[2]) == 1 and not e.a[3]]
+        if not loops and not writes_outside and len(wl) == 1 and wl[0].a[2][0][0] == "comp" and wl[0].a[2][0][1] in ("gen", "list") and len(wl[0].a[2][0][4]) == 1:
+            # form D: file_out.writelines(<line> for key, value in self.cache.items() if len(key) == self.length) — the same lines, handed over lazily
+            cmp_ = wl[0].a[2][0]
+            tgt, src, conds = cmp_[4][0]
+            items = ("call", ("attr", ("attr", SELF, m.CACHE), "items"), (), ())
+            k, v = ("sub", tgt, ("const", 0)), ("sub", tgt, ("const", 1))
+            lf = (("compare", ("==",), (("call", ("builtin", "len"), (k,), ()), ("attr", SELF, m.LENGTH))), ("compare", ("==",), (("attr", SELF, m.LENGTH), ("call", ("builtin", "len"), (k,), ()))))
+            rep.ob("C17.dump-source", fn.name, src == items, "dump source is %s; expected the direct view self.%s.items() in insertion order" % (show(src)[:120], m.CACHE), where(fn, wl[0].node), key="C17.dump-source|dump_to_file")
+            rep.ob("C17.dump-filter", fn.name, len(conds) == 1 and conds[0] in lf, "dump filter: %s; expected exactly len(key) == self.%s (full-length entries, all of them)" % ([show(c) for c in conds], m.LENGTH), where(fn, wl[0].node), key="C17.dump-filter|dump_to_file")
+            r1 = ("call", ("attr", SELF, "_ip_to_str"), (k,), ())
+            r2 = ("call", ("attr", SELF, "_ip_to_str"), (v,), ())
+            line = cmp_[3]
+            okl = line == M.fstr(r1, "\t", r2, "\n") or M.text_parts(line) == [r1, ("const", "\t"), r2, ("const", "\n")]
+            rep.ob("C17.dump-line", fn.name, okl, "line is %s; expected '{}\\t{}\\n'.format(render(key), render(value))" % show(line), where(fn, wl[0].node), key="C17.dump-line|dump_to_file")
+            rep.ob("C17.dump-writes", fn.name, True, "writelines over the full-length entries", where(fn, wl[0].node), nontrivial=False)
+            continue
         if len(loops) != 1 or writes_outside:
             rep.fail("C17.dump-shape", fn.name, "expected one loop writing lines (loops %d, writes outside %d)" % (len(loops), len(writes_outside)), w)
             continue
